@@ -1,4 +1,4 @@
-(* History: inputs on which the float64 share used by vestingsc before /repo f517460 overpaid, by
+(* History: inputs on which the float64 share used by vestingsc before /repo 2bd0df4 overpaid, by
    computation (no axioms). *)
 From ZC Require Import Model.Vesting Proof.Vesting.
 Open Scope Z_scope.
